@@ -10,7 +10,7 @@ import os
 
 from vp import core, vlog
 
-FORMS = ["absolute", "relative", "trailing_slash", "nested_missing", "symlinked_parent", "symlinked_parent_other_depth", "other_filesystem", "name_extends_data_name", "name_extends_internal_name", "internal_below_data"]
+FORMS = ["absolute", "relative", "trailing_slash", "nested_missing", "symlinked_parent", "symlinked_parent_other_depth", "other_filesystem", "name_extends_data_name", "name_extends_internal_name", "internal_below_data", "name_ends_with_dot", "relative_through_dotdot"]
 CACHE = [None, False, True, 0, -1, 3]
 
 
@@ -74,6 +74,12 @@ def dir_for(form, base, name):
     if form == "name_extends_internal_name":
         p = os.path.join(base, "st" if name == "internal" else "st_data")
         return p, p
+    if form == "name_ends_with_dot":
+        p = os.path.join(base, name + "_v1.")
+        return p, p
+    if form == "relative_through_dotdot":
+        # a relative spelling that goes down and up again: <name>_dd/sub/.. is <name>_dd
+        return os.path.join(name + "_dd", "sub", ".."), os.path.join(base, name + "_dd")
     if form == "internal_below_data":
         p = os.path.join(base, "ws", ".dds_internal") if name == "internal" else os.path.join(base, "ws")
         return p, p
